@@ -49,7 +49,6 @@ func WithDebug(f func(format string, arg ...any)) Option {
 // The ctx is used while reading the initial ClientHello only. It is not used
 // after New returns.
 func NewConn(ctx context.Context, conn net.Conn, options ...Option) (outConn *Conn, err error) {
-	defer func() { convertErrorsToAlerts(conn, err) }()
 	done := make(chan struct{})
 	interrupted := make(chan bool, 1)
 	go func() {
@@ -62,12 +61,18 @@ func NewConn(ctx context.Context, conn net.Conn, options ...Option) (outConn *Co
 		}
 	}()
 	defer func() {
+		// The alert is sent while ctx still bounds the connection, so that
+		// a peer that does not read cannot block NewConn.
+		if err != nil {
+			convertErrorsToAlerts(conn, err)
+		}
 		// Wait for the goroutine above, so that ctx cannot affect conn once
 		// NewConn has returned. If ctx ended just as the ClientHello was
 		// processed, the deadline is already set: report the context error.
 		close(done)
 		if <-interrupted && err == nil {
 			outConn, err = nil, ctx.Err()
+			convertErrorsToAlerts(conn, err)
 		}
 	}()
 	record, err := readRecord(conn)
